@@ -256,6 +256,15 @@ Definition run_step (h : heap) (s : step) : heap :=
   match s with
   | SMut l o => match mutate h l o with Ok h' => h' | _ => h end
   | SAlloc o => alloc h o
+  | SCellSet c v =>
+      (* locals[arg].(cell).v = value -- no check of any kind *)
+      match lookup h c with
+      | Some (OCell _) => update h c (OCell (Some v))
+      | _ => h
+      end
   end.
+
+Definition is_cell_set (s : step) : bool := match s with SCellSet _ _ => true | _ => false end.
+Definition no_cell_set (ss : list step) : bool := forallb (fun s => negb (is_cell_set s)) ss.
 
 Definition run_steps (h : heap) (ss : list step) : heap := fold_left run_step ss h.
